@@ -112,3 +112,205 @@ class Deps:
 
     def depends_on(self, expr, root: str) -> bool:
         return root in self.roots_of(expr)
+
+
+# ----------------------------------------------------------------------
+class FlowDeps:
+    """Flow-sensitive variant: an environment name -> set(roots) is pushed through the
+    statements in order (strong update on plain-name assignment, union at joins, loops
+    iterated to a fixpoint).  ``env_before[id(stmt)]`` is the environment in force just
+    before ``stmt`` executes; ``roots(expr, stmt)`` evaluates an expression there.
+
+    Roots are parameter names, free names and ``self.attr`` chains.  A name read before any
+    assignment is its own root.
+    """
+
+    def __init__(self, fn_node):
+        self.fn = fn_node
+        self.env_before: dict[int, dict] = {}
+        self.stmt_of: dict[int, ast.stmt] = {}
+        env = {}
+        if hasattr(fn_node, "args"):
+            for p in A.params_of(fn_node):
+                p = p.lstrip("*")
+                env[p] = {p}
+        body = fn_node.body if isinstance(getattr(fn_node, "body", None), list) else [fn_node]
+        self.final = self._block(body, env)
+        for st in ast.walk(fn_node):
+            if isinstance(st, ast.stmt):
+                for n in ast.walk(st):
+                    self.stmt_of.setdefault(id(n), st)
+        # innermost statement wins: recompute by descending
+        self._index(fn_node)
+
+    def _index(self, root):
+        self.comp_bind: dict[int, dict] = {}
+
+        def rec(node, cur, binds):
+            for c in ast.iter_child_nodes(node):
+                nxt = c if isinstance(c, ast.stmt) else cur
+                self.stmt_of[id(c)] = nxt
+                b2 = binds
+                if isinstance(c, (ast.ListComp, ast.SetComp, ast.DictComp, ast.GeneratorExp)):
+                    b2 = dict(binds)
+                    for g in c.generators:
+                        for nm in A.assigned_names(g.target):
+                            b2[nm] = g.iter
+                if b2:
+                    self.comp_bind[id(c)] = b2
+                rec(c, nxt, b2)
+        rec(root, None, {})
+
+    # -- evaluation ------------------------------------------------------
+    def _roots(self, expr, env):
+        out = set()
+        if expr is None:
+            return out
+        bound = set()
+        for n in ast.walk(expr):
+            if isinstance(n, ast.comprehension):
+                for nm in A.assigned_names(n.target):
+                    bound.add(nm)
+        for nm in A.names_loaded(expr):
+            if nm in bound:
+                # comprehension variable: depends on its iterable (already walked)
+                continue
+            out |= env.get(nm, {nm})
+            out.add(nm) if nm not in env else None
+        return out
+
+    def roots(self, expr, at=None):
+        st = at if at is not None else self.stmt_of.get(id(expr))
+        env = self.env_before.get(id(st), self.final) if st is not None else self.final
+        binds = self.comp_bind.get(id(expr))
+        if binds:
+            env = dict(env)
+            for _ in range(3):  # nested generators may refer to each other
+                for nm, it in binds.items():
+                    env[nm] = self._roots(it, env)
+        return self._roots(expr, env)
+
+    def depends_on(self, expr, root, at=None):
+        return root in self.roots(expr, at)
+
+    # -- transfer --------------------------------------------------------
+    def _join(self, a, b):
+        out = {}
+        for k in set(a) | set(b):
+            out[k] = set(a.get(k, {k})) | set(b.get(k, {k}))
+        return out
+
+    def _assign(self, tgt, val_roots, env, value=None):
+        if isinstance(tgt, ast.Name):
+            env[tgt.id] = set(val_roots)
+        elif isinstance(tgt, (ast.Tuple, ast.List)):
+            if isinstance(value, (ast.Tuple, ast.List)) and len(value.elts) == len(tgt.elts):
+                for t, v in zip(tgt.elts, value.elts):
+                    self._assign(t, self._roots(v, env), env, v)
+            else:
+                for t in tgt.elts:
+                    self._assign(t, val_roots, env)
+        elif isinstance(tgt, ast.Starred):
+            self._assign(tgt.value, val_roots, env)
+        elif isinstance(tgt, ast.Attribute):
+            d = A.dotted(tgt)
+            if d:
+                key = ".".join(d.split(".")[:2]) if d.startswith("self.") else d.split(".")[0]
+                if d.startswith("self.") and d.count(".") == 1:
+                    env[key] = set(val_roots)
+                else:
+                    env[key] = env.get(key, {key}) | set(val_roots)
+        elif isinstance(tgt, ast.Subscript):
+            d = A.dotted(tgt.value)
+            if d:
+                key = ".".join(d.split(".")[:2]) if d.startswith("self.") else d.split(".")[0]
+                env[key] = env.get(key, {key}) | set(val_roots) | self._roots(tgt.slice, env)
+
+    def _effects(self, expr, env):
+        """Mutating method calls inside an expression statement / value."""
+        for n in ast.walk(expr):
+            if isinstance(n, ast.Call) and isinstance(n.func, ast.Attribute) and n.func.attr in MUTATORS:
+                d = A.dotted(n.func.value)
+                if d:
+                    key = ".".join(d.split(".")[:2]) if d.startswith("self.") else d.split(".")[0]
+                    add = set()
+                    for a in list(n.args) + [k.value for k in n.keywords]:
+                        add |= self._roots(a, env)
+                    env[key] = env.get(key, {key}) | add
+            elif isinstance(n, ast.NamedExpr):
+                self._assign(n.target, self._roots(n.value, env), env)
+
+    def _block(self, stmts, env):
+        for st in stmts:
+            env = self._stmt(st, env)
+        return env
+
+    def _stmt(self, st, env):
+        self.env_before[id(st)] = env
+        env = dict(env)
+        if isinstance(st, ast.Assign):
+            self._effects(st.value, env)
+            r = self._roots(st.value, env)
+            for t in st.targets:
+                self._assign(t, r, env, st.value)
+        elif isinstance(st, ast.AnnAssign):
+            if st.value is not None:
+                self._assign(st.target, self._roots(st.value, env), env, st.value)
+        elif isinstance(st, ast.AugAssign):
+            r = self._roots(st.value, env) | self._roots(st.target, env)
+            self._assign(st.target, r, env)
+        elif isinstance(st, ast.Expr):
+            self._effects(st.value, env)
+        elif isinstance(st, ast.If):
+            self._effects(st.test, env)
+            a = self._block(st.body, dict(env))
+            b = self._block(st.orelse, dict(env))
+            env = self._join(a, b)
+        elif isinstance(st, (ast.For, ast.AsyncFor)):
+            for _ in range(3):
+                e2 = dict(env)
+                self._assign(st.target, self._roots(st.iter, e2), e2)
+                e2 = self._block(st.body, e2)
+                new = self._join(env, e2)
+                if new == env:
+                    break
+                env = new
+            e2 = dict(env)
+            self._assign(st.target, self._roots(st.iter, e2), e2)
+            self._block(st.body, e2)  # final pass records env_before with the fixpoint
+            env = self._block(st.orelse, env)
+        elif isinstance(st, ast.While):
+            for _ in range(3):
+                e2 = self._block(st.body, dict(env))
+                new = self._join(env, e2)
+                if new == env:
+                    break
+                env = new
+            self._block(st.body, dict(env))
+            env = self._block(st.orelse, env)
+        elif isinstance(st, (ast.With, ast.AsyncWith)):
+            for it in st.items:
+                if it.optional_vars is not None:
+                    self._assign(it.optional_vars, self._roots(it.context_expr, env), env)
+            env = self._block(st.body, env)
+        elif isinstance(st, ast.Try):
+            a = self._block(st.body, dict(env))
+            a = self._block(st.orelse, a)
+            outs = [a]
+            for h in st.handlers:
+                outs.append(self._block(h.body, self._join(env, a)))
+            e = outs[0]
+            for o in outs[1:]:
+                e = self._join(e, o)
+            env = self._block(st.finalbody, e)
+        elif isinstance(st, (ast.FunctionDef, ast.AsyncFunctionDef)):
+            free = A.names_loaded(st) - {st.name}
+            r = set()
+            for nm in free:
+                r |= env.get(nm, {nm})
+            env[st.name] = r
+        elif isinstance(st, ast.Return):
+            pass
+        elif isinstance(st, ast.Delete):
+            pass
+        return env
